@@ -92,7 +92,7 @@ def serve_one_row(ctx):
     return ctx.ret(r)
 
 
-def run_layout(O, layout, K):
+def run_layout(O, layout, K, in_kinds=("Number", "X", "Z", "C"), exp_kinds=("Number", "X", "Z"), rep=None):
     m = O.mir
     F = m.fidx
     sys.setrecursionlimit(300000)
@@ -135,7 +135,7 @@ def run_layout(O, layout, K):
         for c, e in enumerate(entries):
             t = eng_.tag_of(e, st)
             # what can reach get_row for an accepted test: evaluated entries; C only in input columns (C11)
-            kinds = ("Number", "X", "Z", "C") if layout.columns[c] == "in" else ("Number", "X", "Z")
+            kinds = in_kinds if layout.columns[c] == "in" else exp_kinds
             st.pc.append(z3.Or([t == bv64(m.vidx("DataEntry", k)) for k in kinds]))
         for s in range(nsig):
             b = eng_.scalar(eng_.field(sigs[s], F("Signal", "bits"), "usize"))
@@ -175,8 +175,9 @@ def run_layout(O, layout, K):
 
         def scen(mod2, kinds=kinds):
             f = facts(mod2)
-            return [expansion_scenario(layout, kinds, f["values"], f["bits"], rep) for rep in (1, 2, 3)]
-        judge = B.literal_judge
+            own = [expansion_scenario(layout, kinds, f["values"], f["bits"], rp) for rp in (1, 2, 3)]
+            return own if rep is None else (rep.battery + own)
+        judge = B.literal_judge if rep is None else (lambda obs, sc: (rep.judge(obs, sc) or (B.literal_judge(obs, sc) if sc.expect else None)))
         if p.outcome != "return":
             O.fail_path(p, "row expansion %s: %s" % (p.outcome, p.detail), facts, scen, judge)
             continue
@@ -247,7 +248,7 @@ def run_layout(O, layout, K):
                 break
     want = 1
     for c in range(n):
-        want *= 4 if layout.columns[c] == "in" else 3
+        want *= len(in_kinds) if layout.columns[c] == "in" else len(exp_kinds)
     if len(shapes) != want:
         O.inconclusive("only %d of the %d row shapes of layout '%s' were explored" % (len(shapes), want, layout.name))
     O.note("layout '%s': %d shapes, %d paths" % (layout.name, len(shapes), len(paths)))
